@@ -1,9 +1,636 @@
-//! stub
-use super::*;
-pub struct AcceptProg { pub driver: Drv }
-impl AcceptProg {
-    pub fn to_json(&self) -> Value { json!({"family": "accept", "transport": "x", "driver": self.driver.name()}) }
-    pub fn from_json(v: &Value) -> Option<AcceptProg> { Some(AcceptProg { driver: Drv::parse(js(v, "driver")) }) }
+//! C14 accept programs: `n` concurrent connects, each carrying a nonce as its
+//! first bytes; the acceptor runs a script of single accepts and multishot
+//! `incoming()` streams (ended by drop or by cancel + drain, then re-armed).
+//! Every nonce must come out of the acceptor exactly once.
+
+use std::{
+    os::fd::AsRawFd,
+    sync::{
+        Arc, Mutex,
+        atomic::{AtomicUsize, Ordering},
+    },
+};
+
+use compio_buf::BufResult;
+use compio_net::{TcpListener, TcpStream, UnixListener, UnixStream};
+use compio_runtime::{CancelToken, ResumeUnwind, StreamExt as _};
+use futures_util::{Stream, StreamExt as _};
+use std::io::{Read, Write};
+
+use super::{
+    stream::{Conn, StdSock, Tr, abstract_addr, loop_addr, trace},
+    *,
+};
+
+#[derive(Clone, Copy, Debug, PartialEq, Eq)]
+pub enum End {
+    Drop,
+    Cancel,
 }
-pub fn run(_p: &AcceptProg, _lim: &Limits) -> Outcome { Outcome { sig: "accept/stub".into(), ctx: Rc::new(Ctx::default()) } }
-pub fn generate(_r: &mut Rng, g: &GenCfg) -> AcceptProg { AcceptProg { driver: g.drv } }
+
+#[derive(Clone, Copy, Debug, PartialEq, Eq)]
+pub enum Phase {
+    Single { k: usize },
+    Multi { take: usize, end: End },
+}
+
+#[derive(Clone, Debug)]
+pub struct AcceptProg {
+    pub transport: Tr,
+    pub driver: Drv,
+    pub v6: bool,
+    pub n: usize,
+    pub thread_clients: bool,
+    pub listener_from_std: bool,
+    /// yields before client i connects (compio clients)
+    pub stagger: usize,
+    /// yields before the acceptor starts (connections pile up in the backlog)
+    pub accept_delay: usize,
+    pub phases: Vec<Phase>,
+    pub salt: u64,
+}
+
+impl AcceptProg {
+    pub fn to_json(&self) -> Value {
+        json!({
+            "family": "accept", "transport": self.transport.name(), "driver": self.driver.name(), "v6": self.v6,
+            "n": self.n, "thread_clients": self.thread_clients, "listener_from_std": self.listener_from_std,
+            "stagger": self.stagger, "accept_delay": self.accept_delay, "salt": self.salt,
+            "phases": self.phases.iter().map(|p| match p {
+                Phase::Single { k } => json!({"kind": "single", "k": k}),
+                Phase::Multi { take, end } => json!({"kind": "multi", "take": take,
+                    "end": if *end == End::Drop { "drop" } else { "cancel" }}),
+            }).collect::<Vec<_>>(),
+        })
+    }
+
+    pub fn from_json(v: &Value) -> Option<AcceptProg> {
+        let mut phases = Vec::new();
+        for o in v["phases"].as_array()? {
+            phases.push(match js(o, "kind") {
+                "single" => Phase::Single { k: ju(o, "k").max(1) },
+                "multi" => Phase::Multi {
+                    take: ju(o, "take").max(1),
+                    end: if js(o, "end") == "drop" { End::Drop } else { End::Cancel },
+                },
+                _ => return None,
+            });
+        }
+        if phases.is_empty() {
+            return None;
+        }
+        Some(AcceptProg {
+            transport: Tr::parse(js(v, "transport"))?,
+            driver: Drv::parse(js(v, "driver")),
+            v6: jb(v, "v6"),
+            n: ju(v, "n").clamp(1, 64),
+            thread_clients: jb(v, "thread_clients"),
+            listener_from_std: jb(v, "listener_from_std"),
+            stagger: ju(v, "stagger"),
+            accept_delay: ju(v, "accept_delay"),
+            phases,
+            salt: v["salt"].as_u64().unwrap_or(1),
+        })
+    }
+}
+
+#[allow(async_fn_in_trait)]
+trait Lis: Sized + AsRawFd + 'static {
+    type S: Conn;
+    type Addr: Clone + Send + 'static;
+    async fn bind(v6: bool, from_std: bool) -> io::Result<(Self, Self::Addr)>;
+    /// stream + whether the returned peer address equals the stream's peer address
+    async fn accept1(&self) -> io::Result<(Self::S, Result<(), String>)>;
+    fn incoming_s(&self) -> impl Stream<Item = io::Result<Self::S>>;
+    async fn connect(a: &Self::Addr) -> io::Result<Self::S>;
+    fn std_connect(a: &Self::Addr) -> io::Result<StdSock>;
+}
+
+impl Lis for TcpListener {
+    type Addr = std::net::SocketAddr;
+    type S = TcpStream;
+
+    async fn bind(v6: bool, from_std: bool) -> io::Result<(Self, Self::Addr)> {
+        let l = if from_std {
+            TcpListener::from_std(std::net::TcpListener::bind(loop_addr(v6))?)?
+        } else {
+            TcpListener::bind(loop_addr(v6)).await?
+        };
+        let a = l.local_addr()?;
+        Ok((l, a))
+    }
+
+    async fn accept1(&self) -> io::Result<(Self::S, Result<(), String>)> {
+        let (s, a) = self.accept().await?;
+        let peer = s.peer_addr();
+        let ok = match &peer {
+            Ok(p) if *p == a => Ok(()),
+            _ => Err(format!("accept returned peer address {a:?}, getpeername says {peer:?}")),
+        };
+        Ok((s, ok))
+    }
+
+    fn incoming_s(&self) -> impl Stream<Item = io::Result<Self::S>> {
+        self.incoming()
+    }
+
+    async fn connect(a: &Self::Addr) -> io::Result<Self::S> {
+        TcpStream::connect(*a).await
+    }
+
+    fn std_connect(a: &Self::Addr) -> io::Result<StdSock> {
+        Ok(StdSock::Tcp(std::net::TcpStream::connect(*a)?))
+    }
+}
+
+impl Lis for UnixListener {
+    type Addr = socket2::SockAddr;
+    type S = UnixStream;
+
+    async fn bind(_v6: bool, from_std: bool) -> io::Result<(Self, Self::Addr)> {
+        let addr = abstract_addr()?;
+        let l = if from_std {
+            let s = socket2::Socket::new(socket2::Domain::UNIX, socket2::Type::STREAM, None)?;
+            s.bind(&addr)?;
+            s.listen(128)?;
+            UnixListener::from_std(s.into())?
+        } else {
+            UnixListener::bind_addr(&addr).await?
+        };
+        Ok((l, addr))
+    }
+
+    async fn accept1(&self) -> io::Result<(Self::S, Result<(), String>)> {
+        let (s, a) = self.accept().await?;
+        let peer = s.peer_addr();
+        let ok = match &peer {
+            Ok(p) if *p == a => Ok(()),
+            _ => Err(format!("accept returned peer address {a:?}, getpeername says {peer:?}")),
+        };
+        Ok((s, ok))
+    }
+
+    fn incoming_s(&self) -> impl Stream<Item = io::Result<Self::S>> {
+        self.incoming()
+    }
+
+    async fn connect(a: &Self::Addr) -> io::Result<Self::S> {
+        UnixStream::connect_addr(a).await
+    }
+
+    fn std_connect(a: &Self::Addr) -> io::Result<StdSock> {
+        let s = socket2::Socket::new(socket2::Domain::UNIX, socket2::Type::STREAM, None)?;
+        s.connect(a)?;
+        Ok(StdSock::Unix(s.into()))
+    }
+}
+
+struct State {
+    tag: String,
+    n: usize,
+    salt: u64,
+    accepted: Cell<usize>,
+    acceptor_done: Cell<bool>,
+    in_accept: Cell<Option<&'static str>>,
+    lfd: Cell<RawFd>,
+    /// how often each nonce was read from an accepted connection
+    seen: RefCell<Vec<usize>>,
+    live_fds: RefCell<BTreeSet<RawFd>>,
+    /// clients that got their ack / whose connection was closed without one
+    acked: Cell<usize>,
+    closed: RefCell<Vec<usize>>,
+    ext_done: Arc<AtomicUsize>,
+    ext_closed: Arc<Mutex<Vec<usize>>>,
+    used_drop: Cell<bool>,
+    used_cancel: Cell<bool>,
+    used_multi: Cell<bool>,
+    handlers_done: Cell<usize>,
+    /// accepted and client streams stay open (and keep their descriptor numbers) until the end
+    keep: RefCell<Vec<Box<dyn std::any::Any>>>,
+}
+
+impl State {
+    fn nonce(&self, i: usize) -> [u8; 8] {
+        ((self.salt << 8) ^ (i as u64) ^ 0xC14A_0000_0000_0000).to_le_bytes()
+    }
+
+    fn which(&self, b: &[u8]) -> Option<usize> {
+        (0..self.n).find(|i| self.nonce(*i)[..] == *b)
+    }
+
+    fn clients_finished(&self) -> usize {
+        self.acked.get() + self.closed.borrow().len() + self.ext_done.load(Ordering::SeqCst)
+    }
+
+    fn mode(&self) -> &'static str {
+        if self.used_drop.get() {
+            "multi-drop"
+        } else if self.used_cancel.get() {
+            "multi-cancel"
+        } else if self.used_multi.get() {
+            "multi"
+        } else {
+            "single"
+        }
+    }
+}
+
+/// Takes an accepted connection: reads the nonce, acknowledges, keeps the
+/// stream open until the program ends.
+async fn handler<S: Conn>(ctx: Rc<Ctx>, st: Rc<State>, s: S, how: &'static str) {
+    let BufResult(r, buf) = s.c_read_exact(vec![0u8; 8]).await;
+    ctx.tick();
+    if let Err(e) = r {
+        ctx.fail(
+            format!("C14/accept/unusable-connection/{}/{how}", st.tag),
+            format!("the connection yielded by {how} could not deliver its 8 byte nonce: {e}"),
+        );
+        return;
+    }
+    let Some(i) = st.which(&buf) else {
+        ctx.fail(
+            format!("C14/accept/bad-nonce/{}/{how}", st.tag),
+            format!("the connection yielded by {how} starts with {buf:02x?}, which no client sent"),
+        );
+        return;
+    };
+    let times = {
+        let mut seen = st.seen.borrow_mut();
+        seen[i] += 1;
+        seen[i]
+    };
+    if times > 1 {
+        ctx.fail(
+            format!("C14/accept/duplicate/{}/{how}", st.tag),
+            format!("the connection of client {i} was yielded {times} times"),
+        );
+        return;
+    }
+    let BufResult(r, _) = s.c_write_all(vec![0xACu8]).await;
+    if let Err(e) = r {
+        ctx.fail(
+            format!("C14/accept/unusable-connection/{}/{how}", st.tag),
+            format!("the connection of client {i} yielded by {how} could not be written to: {e}"),
+        );
+        return;
+    }
+    st.handlers_done.set(st.handlers_done.get() + 1);
+    ctx.tick();
+    st.keep.borrow_mut().push(Box::new(s));
+}
+
+fn take_conn<S: Conn>(ctx: &Rc<Ctx>, st: &Rc<State>, s: S, how: &'static str, tasks: &mut Vec<compio_runtime::JoinHandle<()>>) -> bool {
+    let fd = s.as_raw_fd();
+    if !st.live_fds.borrow_mut().insert(fd) {
+        ctx.fail(
+            format!("C14/accept/duplicate-fd/{}/{how}", st.tag),
+            format!("{how} yielded descriptor {fd} which an earlier, still open accepted connection already owns"),
+        );
+        return false;
+    }
+    st.accepted.set(st.accepted.get() + 1);
+    ctx.tick();
+    if trace() {
+        eprintln!("accept: {how} yielded fd {fd} ({} of {})", st.accepted.get(), st.n);
+    }
+    tasks.push(compio_runtime::spawn(handler(ctx.clone(), st.clone(), s, how)));
+    true
+}
+
+async fn acceptor<L: Lis>(ctx: Rc<Ctx>, st: Rc<State>, p: AcceptProg, l: L) {
+    st.lfd.set(l.as_raw_fd());
+    yields(&ctx, p.accept_delay).await;
+    let mut tasks = Vec::new();
+    let mut pi = 0usize;
+    let mut multi_before = false;
+    'outer: while st.accepted.get() < st.n && !ctx.stopped() {
+        let ph = p.phases[pi % p.phases.len()];
+        pi += 1;
+        match ph {
+            Phase::Single { k } => {
+                for _ in 0..k {
+                    if st.accepted.get() >= st.n {
+                        break;
+                    }
+                    st.in_accept.set(Some("accept"));
+                    let r = l.accept1().await;
+                    st.in_accept.set(None);
+                    match r {
+                        Ok((s, addr_ok)) => {
+                            if let Err(why) = addr_ok {
+                                ctx.fail(format!("C14/accept/peer-address/{}/accept", st.tag), why);
+                                break 'outer;
+                            }
+                            ctx.floor("accept-single");
+                            if !take_conn(&ctx, &st, s, "accept", &mut tasks) {
+                                break 'outer;
+                            }
+                        }
+                        Err(e) => {
+                            ctx.fail(
+                                format!("C14/accept/error/{}/accept/{}", st.tag, errname(&e)),
+                                format!("accept failed after {} of {} connections: {e}", st.accepted.get(), st.n),
+                            );
+                            break 'outer;
+                        }
+                    }
+                }
+            }
+            Phase::Multi { take, end } => {
+                st.used_multi.set(true);
+                let ct = CancelToken::new();
+                let mut inc = pin!(l.incoming_s().with_cancel(ct.clone()));
+                let mut got = 0usize;
+                let mut cancelled = false;
+                loop {
+                    if st.accepted.get() >= st.n {
+                        break;
+                    }
+                    if !cancelled && got >= take {
+                        match end {
+                            End::Drop => {
+                                st.used_drop.set(true);
+                                break;
+                            }
+                            End::Cancel => {
+                                st.used_cancel.set(true);
+                                cancelled = true;
+                                ct.clone().cancel();
+                            }
+                        }
+                    }
+                    st.in_accept.set(Some("incoming"));
+                    let r = inc.next().await;
+                    st.in_accept.set(None);
+                    if trace() {
+                        eprintln!("accept: incoming (end {end:?}, cancelled {cancelled}, got {got}) -> {:?}", r.as_ref().map(|r| r.as_ref().map(|s| s.as_raw_fd()).map_err(|e| e.to_string())));
+                    }
+                    match r {
+                        Some(Ok(s)) => {
+                            got += 1;
+                            ctx.floor("accept-multishot");
+                            if multi_before {
+                                ctx.floor("accept-multishot-rearm");
+                            }
+                            if !take_conn(&ctx, &st, s, "incoming", &mut tasks) {
+                                break 'outer;
+                            }
+                        }
+                        Some(Err(e)) if cancelled && is_cancelled(&e) => break,
+                        None if cancelled => break,
+                        Some(Err(e)) => {
+                            ctx.fail(
+                                format!("C14/accept/error/{}/incoming/{}", st.tag, errname(&e)),
+                                format!("incoming() failed after {} of {} connections: {e}", st.accepted.get(), st.n),
+                            );
+                            break 'outer;
+                        }
+                        None => {
+                            ctx.fail(
+                                format!("C14/accept/incoming-ended/{}", st.tag),
+                                "the incoming() stream ended by itself".into(),
+                            );
+                            break 'outer;
+                        }
+                    }
+                }
+                multi_before = true;
+            }
+        }
+    }
+    st.acceptor_done.set(true);
+    ctx.tick();
+    for t in tasks {
+        t.await.resume_unwind();
+    }
+}
+
+async fn client<L: Lis>(ctx: Rc<Ctx>, st: Rc<State>, addr: L::Addr, i: usize, delay: usize) {
+    yields(&ctx, delay).await;
+    let s = match L::connect(&addr).await {
+        Ok(s) => s,
+        Err(e) => {
+            ctx.give_up(format!("client connect failed: {e}"));
+            return;
+        }
+    };
+    ctx.tick();
+    let BufResult(r, _) = s.c_write_all(st.nonce(i).to_vec()).await;
+    if r.is_err() {
+        st.closed.borrow_mut().push(i);
+        ctx.tick();
+        return;
+    }
+    let BufResult(r, b) = s.c_read(vec![0u8; 1]).await;
+    match r {
+        Ok(1) if b[0] == 0xAC => st.acked.set(st.acked.get() + 1),
+        _ => st.closed.borrow_mut().push(i),
+    }
+    ctx.tick();
+    st.keep.borrow_mut().push(Box::new(s));
+}
+
+pub fn run(p: &AcceptProg, lim: &Limits) -> Outcome {
+    match p.transport {
+        Tr::Tcp => run_l::<TcpListener>(p, lim),
+        Tr::Unix => run_l::<UnixListener>(p, lim),
+    }
+}
+
+fn run_l<L: Lis>(p: &AcceptProg, lim: &Limits) -> Outcome {
+    let ctx = Rc::new(Ctx::default());
+    let tag = format!("{}/{}", p.transport.name(), p.driver.name());
+    let st = Rc::new(State {
+        tag: tag.clone(),
+        n: p.n,
+        salt: p.salt,
+        accepted: Cell::new(0),
+        acceptor_done: Cell::new(false),
+        in_accept: Cell::new(None),
+        lfd: Cell::new(-1),
+        seen: RefCell::new(vec![0; p.n]),
+        live_fds: RefCell::new(BTreeSet::new()),
+        acked: Cell::new(0),
+        closed: RefCell::new(Vec::new()),
+        ext_done: Arc::new(AtomicUsize::new(0)),
+        ext_closed: Arc::new(Mutex::new(Vec::new())),
+        used_drop: Cell::new(false),
+        used_cancel: Cell::new(false),
+        used_multi: Cell::new(false),
+        handlers_done: Cell::new(0),
+        keep: RefCell::new(Vec::new()),
+    });
+    let finish = |ctx: &Rc<Ctx>| {
+        let mut kinds: BTreeSet<String> = BTreeSet::new();
+        for ph in &p.phases {
+            kinds.insert(match ph {
+                Phase::Single { k } => format!("single{}", (*k).min(3)),
+                Phase::Multi { take, end } => format!("multi{}{}", (*take).min(3), if *end == End::Drop { "drop" } else { "cancel" }),
+            });
+        }
+        Outcome {
+            sig: format!(
+                "accept/{tag}/{}/n{}/{}/d{}",
+                if p.thread_clients { "thread" } else { "compio" },
+                p.n.min(9),
+                kinds.into_iter().collect::<Vec<_>>().join("+"),
+                p.accept_delay.min(1)
+            ),
+            ctx: ctx.clone(),
+        }
+    };
+    let rt = match build_rt(&RtCfg { drv: p.driver, pool_len: 4096, pool_size: 4 }) {
+        Ok(rt) => rt,
+        Err(e) => {
+            ctx.give_up(format!("runtime build failed: {e}"));
+            return finish(&ctx);
+        }
+    };
+    let thread: Rc<RefCell<Option<std::thread::JoinHandle<()>>>> = Rc::new(RefCell::new(None));
+    let main = {
+        let ctx = ctx.clone();
+        let st = st.clone();
+        let p = p.clone();
+        let thread = thread.clone();
+        async move {
+            let (l, addr) = match L::bind(p.v6, p.listener_from_std).await {
+                Ok(x) => x,
+                Err(e) => {
+                    ctx.give_up(format!("setup: {e}"));
+                    return;
+                }
+            };
+            let mut tasks = Vec::new();
+            if p.thread_clients {
+                let nonces: Vec<[u8; 8]> = (0..p.n).map(|i| st.nonce(i)).collect();
+                let done = st.ext_done.clone();
+                let closed = st.ext_closed.clone();
+                let a = addr.clone();
+                *thread.borrow_mut() = Some(std::thread::spawn(move || {
+                    // connect everything first: the connections pile up in the backlog
+                    let mut socks = Vec::new();
+                    for (i, n) in nonces.iter().enumerate() {
+                        match L::std_connect(&a) {
+                            Ok(mut s) => {
+                                match &s {
+                                    StdSock::Tcp(t) => {
+                                        let _ = t.set_read_timeout(Some(Duration::from_secs(20)));
+                                    }
+                                    StdSock::Unix(t) => {
+                                        let _ = t.set_read_timeout(Some(Duration::from_secs(20)));
+                                    }
+                                }
+                                let _ = s.write_all(n);
+                                socks.push((i, s));
+                            }
+                            Err(_) => {
+                                closed.lock().unwrap().push(i);
+                                done.fetch_add(1, Ordering::SeqCst);
+                            }
+                        }
+                    }
+                    for (i, s) in socks.iter_mut() {
+                        let mut b = [0u8; 1];
+                        match s.read(&mut b) {
+                            Ok(1) if b[0] == 0xAC => {}
+                            _ => closed.lock().unwrap().push(*i),
+                        }
+                        done.fetch_add(1, Ordering::SeqCst);
+                    }
+                }));
+            } else {
+                for i in 0..p.n {
+                    tasks.push(compio_runtime::spawn(client::<L>(ctx.clone(), st.clone(), addr.clone(), i, p.stagger * i)));
+                }
+            }
+            tasks.push(compio_runtime::spawn(acceptor(ctx.clone(), st.clone(), p.clone(), l)));
+            for t in tasks {
+                t.await.resume_unwind();
+            }
+        }
+    };
+    let ext = {
+        let st = st.clone();
+        move || st.ext_done.load(Ordering::SeqCst) as u64
+    };
+    let stall = {
+        let st = st.clone();
+        move || {
+            if st.acceptor_done.get() {
+                return Stall::KeepWaiting;
+            }
+            let Some(how) = st.in_accept.get() else { return Stall::KeepWaiting };
+            let ev = poll_fd(st.lfd.get(), libc::POLLIN);
+            if ev & libc::POLLIN != 0 {
+                return Stall::Violation(Fail {
+                    sig: format!("C14/accept/stall-readable/{}/{how}/after-{}", st.tag, st.mode()),
+                    what: format!(
+                        "{how} made no progress over the idle bound after {} of {} connections although poll() reports the listener readable",
+                        st.accepted.get(), st.n
+                    ),
+                });
+            }
+            if st.clients_finished() >= st.n {
+                let mut lost: Vec<usize> = st.closed.borrow().clone();
+                lost.extend(st.ext_closed.lock().unwrap().iter().copied());
+                lost.sort_unstable();
+                return Stall::Violation(Fail {
+                    sig: format!("C14/accept/lost/{}/{}", st.tag, st.mode()),
+                    what: format!(
+                        "{} clients connected and sent their nonce, the acceptor got {} connections and now waits in {how} with an empty backlog; clients {lost:?} saw their connection closed without ever being yielded (acceptor script so far used: {})",
+                        st.n, st.accepted.get(), st.mode()
+                    ),
+                });
+            }
+            Stall::KeepWaiting
+        }
+    };
+    drive(&rt, &ctx, lim, &ext, &stall, main);
+    rt.enter(|| st.keep.borrow_mut().clear());
+    drop(rt);
+    if let Some(h) = thread.borrow_mut().take() {
+        let _ = h.join();
+    }
+    if !ctx.stopped() {
+        // everything finished: every nonce exactly once
+        let seen = st.seen.borrow();
+        if let Some(i) = (0..p.n).find(|i| seen[*i] != 1) {
+            ctx.fail(
+                format!("C14/accept/lost/{tag}/{}", st.mode()),
+                format!("client {i} was yielded {} times", seen[i]),
+            );
+        }
+    }
+    ctx.count("accept_programs", 1);
+    ctx.count("accept_connections", st.accepted.get() as i64);
+    finish(&ctx)
+}
+
+pub fn generate(r: &mut Rng, g: &GenCfg) -> AcceptProg {
+    let n = match r.below(4) {
+        0 => r.range(1, 3),
+        1..=2 => r.range(3, 8),
+        _ => r.range(8, 16 * g.scale),
+    };
+    let phases = (0..r.range(1, 4))
+        .map(|_| {
+            if r.chance(1, 3) {
+                Phase::Single { k: r.range(1, 3) }
+            } else {
+                Phase::Multi { take: r.range(1, 4), end: if r.chance(1, 2) { End::Drop } else { End::Cancel } }
+            }
+        })
+        .collect();
+    AcceptProg {
+        transport: if r.chance(1, 2) { Tr::Tcp } else { Tr::Unix },
+        driver: g.drv,
+        v6: g.v6 && r.chance(1, 3),
+        n,
+        thread_clients: r.chance(1, 3),
+        listener_from_std: r.chance(1, 4),
+        stagger: *r.pick(&[0, 0, 1, 5]),
+        accept_delay: *r.pick(&[0, 0, 10, 60]),
+        phases,
+        salt: r.next_u64() | 1,
+    }
+}
